@@ -663,6 +663,9 @@ def run(ctx: Ctx):
     # growth of the specification: the Stan-style windowed warm-up schedule (WindowedAdaptation.tla)
     from . import windowed
     windowed.check(ctx, ctx.tier == "quick")
+    # growth of the specification: the logger life cycle the sampling loops drive (Logger.tla)
+    from . import loggerspec
+    loggerspec.check(ctx, ctx.tier == "quick")
     ctx.cov["rule"] = ("every iteration of every recorded chain is one case; distinct = (chain, operator, accepted, hastings kind, "
                        "acceptance vs target, proposal moved)")
 
